@@ -309,6 +309,9 @@ func (app *App) optimizeReplicaWithSmallestLag(
 		return err
 	}
 	replicaToOptimize := app.cluster.Get(hostnameToOptimize)
+	if replicaToOptimize == nil {
+		return fmt.Errorf("replica optimization: %s is not a registered host", hostnameToOptimize)
+	}
 
 	err = app.optController.Enable(replicaToOptimize)
 	if err != nil {
